@@ -52,6 +52,11 @@ func (s *SignedLatency) OnPing(pingReqID uint32) error {
 	if !ok {
 		return errors.New("ping request not found")
 	}
+	if s.Iteration == 0 || !pingRequest.End.IsZero() {
+		// The measurement is already complete, or this ping request has
+		// already been answered: it must not count as another round.
+		return errors.New("ping request already answered")
+	}
 
 	s.Iteration--
 	s.PingRequests[pingReqID] = LatencyMetricsData{
@@ -81,7 +86,9 @@ func (s *SignedLatency) OnPing(pingReqID uint32) error {
 		mean += latency
 	}
 	mean = float32(math.Round(float64(mean) / float64(len(s.PingRequests))))
-	last = latencies[len(latencies)-1]
+	// The last latency is the one of the round that has just been answered, not
+	// whichever entry the map iteration happened to end with.
+	last = float32(s.PingRequests[pingReqID].End.Sub(pingRequest.Start).Microseconds())
 
 	sort.Slice(latencies, func(i, j int) bool {
 		return latencies[i] < latencies[j]
